@@ -41,7 +41,7 @@ SNIPPETS = [
     ('last-in-default', 'out int n = 5;\nparser { n = [$last]; "a"; }', True),
     ('last-in-condition-point', 'parser { "a"; if $last == 1 { "b"; } }', True),
     ('huge-repeat', 'parser { /a{300}/; }', False),
-    ('huge-range-repeat', 'parser { /(ab){0,200}c/; }', False),
+    ('huge-range-repeat', 'parser { /(ab){0,100}c/; }', False),
     ('nested-empty-star', 'parser { /(a*)*b/; }', False),
     ('nested-optional-star', 'parser { /(a?b?)*c/; }', False),
     ('empty-alternation-branchless', 'parser { /a|b|c|d|e|f|g|h/; }', False),
